@@ -36,6 +36,10 @@ pub enum Limit {
     ColumnName(usize),
     /// packable characters only / one unpackable character per pair
     StreamName(usize, bool),
+    /// every row of the table that fills the pool is deleted without a
+    /// condition (0) or the table is dropped (1), reopen, then `add` strings
+    /// new to the pool are needed (by an insert into S resp. a new table)
+    StringsAfterDeleteAll(u8, u32),
     /// as `StringsAfterDelete`, with the package closed and reopened between
     /// the deletion (the session's only change) and the insert
     StringsAfterDeleteReopen(u32, u32, u32),
@@ -176,6 +180,25 @@ fn approach(l: &Limit) -> Result<(Package<SharedBuf>, SharedBuf, Snapshot, std::
             let before = snap(&mut pkg)?;
             let r = pkg.insert_rows(Insert::into("S").rows((0..*add).map(|i| vec![Value::Str(format!("new{i:05}"))]).collect()));
             Ok((pkg, buf, before, r, if pre - freed + add <= 65535 { Expect::MustOk } else { Expect::MustErr }))
+        }
+        Limit::StringsAfterDeleteAll(how, add) => {
+            let buf = SharedBuf::new(file_with_pool(65_535)?);
+            let mut pkg = Package::open(buf.clone()).map_err(|e| Fail::new(format!("{P} unreadable-file"), format!("a file with a full pool does not open: {e}")))?;
+            if how % 2 == 0 {
+                pkg.delete_rows(Delete::from("S")).map_err(|e| err("delete all", e))?;
+            } else {
+                pkg.drop_table("S").map_err(|e| err("drop_table", e))?;
+            }
+            let bytes = pkg.into_inner().map_err(|e| err("into_inner", e))?.bytes();
+            let buf = SharedBuf::new(bytes);
+            let mut pkg = Package::open(buf.clone()).map_err(|e| Fail::new(format!("{P} unreadable-file"), format!("the file does not open after the deletion was saved: {e}")))?;
+            let before = snap(&mut pkg)?;
+            let r = if how % 2 == 0 {
+                pkg.insert_rows(Insert::into("S").rows((0..*add).map(|i| vec![Value::Str(format!("new{i:05}"))]).collect()))
+            } else {
+                pkg.create_table("Fresh", vec![Column::build("k").primary_key().string(0)]).and_then(|()| pkg.insert_rows(Insert::into("Fresh").rows((0..*add).map(|i| vec![Value::Str(format!("new{i:05}"))]).collect())))
+            };
+            Ok((pkg, buf, before, r, Expect::MustOk))
         }
         Limit::StringsAfterDeleteReopen(pre, freed, add) => {
             let buf = SharedBuf::new(file_with_pool(*pre)?);
@@ -321,6 +344,7 @@ fn cases(thorough: bool) -> Vec<Limit> {
         Limit::Strings(65535, 3, true), Limit::Strings(65533, 4, true), Limit::Strings(65500, 4, true),
         Limit::ValidationRowsFull(2, 2), Limit::ValidationRowsFull(1, 2), Limit::ValidationRowsFull(0, 1), Limit::ValidationRowsFull(3, 5),
         Limit::StringsAfterDelete(65535, 3, 3), Limit::StringsAfterDelete(65535, 3, 4), Limit::StringsAfterDelete(65535, 1, 1),
+        Limit::StringsAfterDeleteAll(0, 1000), Limit::StringsAfterDeleteAll(1, 1000),
         Limit::StringsAfterDeleteReopen(65535, 3, 3), Limit::StringsAfterDeleteReopen(65535, 3, 4), Limit::StringsAfterDeleteReopen(65535, 1, 1),
     ];
     for n in [30usize, 31, 32, 33, 59, 60, 61, 64, 65] {
